@@ -283,3 +283,12 @@ func Verif_C11_Chunk() {
 	}
 	c11Run(w, pe, add, 2, 1, ticks, false)
 }
+
+//verif:entry tier=quick,thorough steps=4000000 preempt=2 allowdeadlock cover=wait
+//verif:doc PeriodicalExecutor, periodic flush against Wait, schedules with at most 2 preemptions: threshold 2, the caller adds one task (which stays in the container), the clock delivers one tick at an arbitrary point, the caller Waits: when Wait returns the task has been executed, whether the tick's Flush or Wait's own Flush took it out of the container.
+func Verif_C11_TickFlushVsWait() {
+	w := c11NewWorld()
+	c := &c11Spy{inner: &bulkContainer{execute: w.execute, maxTasks: 2}, w: w}
+	pe := NewPeriodicalExecutor(c11Interval, c)
+	c11Run(w, pe, func(id int) { pe.Add(id) }, 1, 0, 1, false)
+}
